@@ -376,6 +376,51 @@ def main():
         except Exception as ex:
             if 3 not in traced:
                 out["errors"].append({"kind": "partial-rules", "traced": traced, "error": "raised although every traced position has a rule: %r" % (ex,)})
+    # primitives registered through the older method API (autograd.core.primitive: .defvjp / .defgrad / .defvjp_is_zero with
+    # argnum=), for position sets that do not start at 0: inside a graph every rule reaches its own parent, a traced
+    # position without a rule raises
+    import warnings as _w3
+    from autograd.core import primitive as _legacy
+    with _w3.catch_warnings():
+        _w3.simplefilter("ignore")
+
+        @_legacy
+        def leg1(c, x):
+            return c * x
+        leg1.defgrad(lambda ans, c, x: lambda g: g * c * 1.0, argnum=1)
+
+        @_legacy
+        def leg2(a, b, c):
+            return 2.0 * a + 3.0 * b + 5.0 * c
+        leg2.defvjp(lambda g, ans, vs, gvs, a, b, c: 5.0 * g, argnum=2)
+        leg2.defvjp(lambda g, ans, vs, gvs, a, b, c: 3.0 * g, argnum=1)
+
+        @_legacy
+        def leg3(a, b):
+            return 2.0 * a + 7.0 * b
+        leg3.defvjp_is_zero(argnums=(0,))       # (registering further rules after this one replaces it: loud, not used here)
+    legacy_progs = [
+        ("defgrad(argnum=1) inside sin(.) + x**2", lambda x: leg1(3.0, x) * 2.0 + x * x, 0.5, 3.0 * 2.0 + 1.0, False),
+        ("defgrad(argnum=1), traced position 0 has no rule", lambda x: leg1(x, 2.0), 0.5, None, True),
+        ("defvjp(argnum=2) and defvjp(argnum=1), both traced", lambda x: leg2(1.0, x, x * 2.0) + x, 1.5, 3.0 + 10.0 + 1.0, False),
+        ("defvjp(argnum=2) only traced", lambda x: leg2(1.0, 4.0, x), 1.5, 5.0, False),
+        ("defvjp(argnum=1, 2) registered, position 0 traced", lambda x: leg2(x, 1.0, 2.0), 1.5, None, True),
+        ("defvjp_is_zero(0) only, position 0 traced", lambda x: leg3(x, 3.0) + x, 1.5, 1.0, False),
+    ]
+    for nm, f, x0_, want, must_raise in legacy_progs:
+        dist("legacy-registration-api")
+        try:
+            with _w3.catch_warnings():
+                _w3.simplefilter("ignore")
+                got = float(_mv3(f, x0_)[0](1.0))
+            if must_raise or got != want:
+                out["errors"].append({"kind": "legacy-registration", "program": nm,
+                                      "error": "gradient %r returned%s" % (got, " for a traced position without a rule" if must_raise else " (expected %r)" % want)})
+        except NotImplementedError as ex:
+            if not must_raise:
+                out["errors"].append({"kind": "legacy-registration", "program": nm, "error": "raised although the traced positions have rules: %r" % (ex,)})
+        except Exception as ex:
+            out["errors"].append({"kind": "legacy-registration", "program": nm, "error": "raised %r" % (ex,)})
     # direct calls of autograd.util.toposort on explicit parent lists
     for i in range(cfg["n_topo"]):
         n = rng.randint(1, cfg["size"])
